@@ -860,6 +860,11 @@ def rule_close_owned(ctx, cfg, F, model):
                     kinds.append("owned-local")
                 else:
                     kinds.append("BAD:value of unknown ownership (%r)" % (r,))
+            # the same value closed again further down the same path
+            my_roots = {r.key() for r in roots}
+            for b2, t2 in f.calls_to(*FOREIGN_SINKS):
+                if b2 != b and t["to"] >= 0 and b2 in f.reachable(t["to"], avoid=_headers_around(f, b)) and {r.key() for r in tr.roots_of_operand(t2["args"][0])} == my_roots:
+                    kinds.append("BAD:the same descriptor is closed again at %s on the same path (double close)" % f.loc(b2))
             bad = [k for k in kinds if k.startswith("BAD:")]
             if bad or not kinds:
                 R.violate("%s:close:%s" % (f.path, (bad[0][4:40] if bad else "unresolved")),
@@ -868,6 +873,16 @@ def rule_close_owned(ctx, cfg, F, model):
             else:
                 R.ok("close in %s: %s" % (f.path, ",".join(sorted(set(kinds)))), f.loc(b), cfg)
     R.count("close_sites[%s]" % cfg, n)
+
+
+def _headers_around(f, b):
+    """headers of the loops that contain block b: passing one of them starts a new iteration"""
+    return [h for h in f.loop_headers() if b in f.natural_loop(h)]
+
+
+def _in_loop_with(f, a, b):
+    """both blocks lie in one natural loop (the second close then belongs to a later iteration)"""
+    return any(a in f.natural_loop(h) and b in f.natural_loop(h) for h in f.loop_headers())
 
 
 CLOEXEC_BITS = {"SOCK_CLOEXEC": 0o2000000, "MSG_CMSG_CLOEXEC": 0x40000000, "MFD_CLOEXEC": 1, "O_CLOEXEC": 0o2000000,
